@@ -10,7 +10,7 @@
    properties are about alone ([finish_keeps_ids]).
    Definitions only. *)
 From Coq Require Import Sorted.
-From Aqua Require Import Base Json Air Trace Handler Values Scalars Lens Exec RunExec CallSpec.
+From Aqua Require Import Base Json Air Trace Handler Values Scalars Lens Exec RunExec ExecStreams CallSpec.
 Open Scope N_scope.
 Open Scope list_scope.
 
@@ -68,15 +68,16 @@ Definition C06_fresh_exec_stmt : Prop :=
 
 (* one run: the request ids are lcid(prev)+1 .. lcid(prev)+k in order, the new data stores lcid(prev)+k;
    a run that gives no new data issues no request (and the host keeps prev) *)
+Definition fresh_run_post (prev : idata) (o : outcome) : Prop :=
+  let ids := map fst (out_requests o) in
+  ids = N_seq (d_lcid prev + 1) (length ids) /\
+  d_lcid (host_next_prev prev o) = d_lcid prev + N.of_nat (length ids) /\
+  (d_lcid prev <= u32_max_id -> d_lcid (host_next_prev prev o) <= u32_max_id) /\
+  match o with OutNewData _ _ _ _ _ => True | _ => ids = [] end.
+
 Definition C06_fresh_run_stmt : Prop :=
   forall esi fs, hook_preserves fresh_step esi -> finish_keeps_ids fs ->
-  forall fuel i,
-    let o := run esi fs fuel i in
-    let ids := map fst (out_requests o) in
-    ids = N_seq (d_lcid (ri_prev i) + 1) (length ids) /\
-    d_lcid (host_next_prev (ri_prev i) o) = d_lcid (ri_prev i) + N.of_nat (length ids) /\
-    (d_lcid (ri_prev i) <= u32_max_id -> d_lcid (host_next_prev (ri_prev i) o) <= u32_max_id) /\
-    match o with OutNewData _ _ _ _ _ => True | _ => ids = [] end.
+  forall fuel i, fresh_run_post (ri_prev i) (run esi fs fuel i).
 
 (* a sequence of runs of one peer: every run takes as previous data what the host stored after the
    run before; script, parameters, current data, call results and fuel of every run are arbitrary *)
@@ -99,14 +100,22 @@ Section RunSeq.
     end.
 End RunSeq.
 
+Definition fresh_runs_post (prev : idata) (r : list (list N) * idata) : Prop :=
+  let '(idss, final) := r in
+  let all := concat idss in
+  all = N_seq (d_lcid prev + 1) (length all) /\
+  d_lcid final = d_lcid prev + N.of_nat (length all) /\
+  StronglySorted N.lt all /\ NoDup all /\ Forall (fun k => d_lcid prev < k <= d_lcid final) all.
+
 Definition C06_fresh_runs_stmt : Prop :=
   forall esi fs, hook_preserves fresh_step esi -> finish_keeps_ids fs ->
-  forall prev steps,
-    let '(idss, final) := run_seq esi fs prev steps in
-    let all := concat idss in
-    all = N_seq (d_lcid prev + 1) (length all) /\
-    d_lcid final = d_lcid prev + N.of_nat (length all) /\
-    StronglySorted N.lt all /\ NoDup all /\ Forall (fun k => d_lcid prev < k <= d_lcid final) all.
+  forall prev steps, fresh_runs_post prev (run_seq esi fs prev steps).
+
+(* the same for the full executor (stage 2: ExecStreams.stream_instr, finish_streams; run2), unconditionally *)
+Definition C06_fresh_run2_stmt : Prop := forall fuel i, fresh_run_post (ri_prev i) (run2 fuel i).
+Definition C06_fresh_runs2_stmt : Prop := forall prev steps, fresh_runs_post prev (run_seq stream_instr finish_streams prev steps).
+Definition C06_exec2_stmt : Prop :=
+  forall fuel i x, res_sat fresh_step x (exec stream_instr fuel i x) /\ res_sat results_step x (exec stream_instr fuel i x).
 
 (* the current data's counter is ignored *)
 Definition with_cur_lcid (i : run_input) (n : N) : run_input :=
